@@ -73,6 +73,8 @@ pub struct Packet {
     pub stream: bool,
     pub batch: bool,
     pub hashes: Vec<Hash>,
+    /// sent by a replica that had accepted byzantine input (taint propagates with the data)
+    pub tainted: bool,
 }
 
 pub struct Session {
@@ -209,6 +211,8 @@ pub struct World {
     pub harness_error: Option<String>,
     /// compact tag of the last byzantine mutation handed to each replica (class:chunk type), for signatures
     pub last_mutation: BTreeMap<usize, String>,
+    /// the packet most recently handed to a replica (so that an oracle can repeat the call on a twin)
+    pub last_packet: Option<Packet>,
 }
 
 pub fn new_doc(enc: Enc, actor: &[u8]) -> AutoCommit {
@@ -240,6 +244,7 @@ impl World {
             interleaving: crate::prng::Fnv::new(),
             harness_error: None,
             last_mutation: BTreeMap::new(),
+            last_packet: None,
         }
     }
 
@@ -721,10 +726,11 @@ impl World {
                 if self.reps[f].isolated.is_some() {
                     return Outcome::Nop;
                 }
-                let pk = match self.make_packet(f, t, *what, *enc, *batch) {
+                let mut pk = match self.make_packet(f, t, *what, *enc, *batch) {
                     Some(p) => p,
                     None => return Outcome::Nop,
                 };
+                pk.tainted = self.reps[f].tainted;
                 let n = pk.hashes.len();
                 self.links.entry((f as u8, t as u8)).or_default().push(pk);
                 Outcome::Sent { from: f, to: t, n }
@@ -789,6 +795,9 @@ impl World {
                     return Outcome::Nop;
                 }
                 let (a, b) = two_mut(&mut self.reps, t, f);
+                if b.tainted {
+                    a.tainted = true;
+                }
                 let res = a.doc.merge(&mut b.doc).map(|_| ()).map_err(|e| format!("{e}"));
                 if res.is_ok() {
                     let add: Vec<Hash> = b.known.iter().cloned().collect();
@@ -818,6 +827,7 @@ impl World {
                 self.reps.push(nr);
                 let new = self.reps.len() - 1;
                 self.reharvest(new);
+                self.reps[new].tainted = self.reps[r].tainted;
                 // a fork is a clone: it also carries the parent's held-back changes
                 let held: Vec<Hash> = self.reps[r].delivered.difference(&self.reps[r].known).cloned().collect();
                 self.reps[new].delivered.extend(held);
@@ -1365,12 +1375,14 @@ impl World {
                 stream: false,
                 batch,
                 hashes,
+                tainted: false,
             },
             WireEnc::Compressed => Packet {
                 blobs: changes.iter_mut().map(|c| c.bytes().to_vec()).collect(),
                 stream: false,
                 batch,
                 hashes,
+                tainted: false,
             },
             WireEnc::Reencode => Packet {
                 blobs: changes
@@ -1380,6 +1392,7 @@ impl World {
                 stream: false,
                 batch,
                 hashes,
+                tainted: false,
             },
             WireEnc::Bundle => {
                 let hs: Vec<ChangeHash> = changes.iter().map(|c| c.hash()).collect();
@@ -1389,6 +1402,7 @@ impl World {
                         stream: true,
                         batch,
                         hashes,
+                        tainted: false,
                     },
                     Err(_) => return None,
                 }
@@ -1401,10 +1415,36 @@ impl World {
                     stream: true,
                     batch,
                     hashes: all,
+                    tainted: false,
                 }
             }
         };
         Some(pk)
+    }
+
+    /// hand a packet to a document exactly as a receiving application would
+    pub fn apply_packet(doc: &mut AutoCommit, pk: &Packet) -> Result<(), String> {
+        if pk.stream {
+            doc.load_incremental(&pk.blobs[0]).map(|_| ()).map_err(|e| format!("{e}"))
+        } else {
+            let mut chs = Vec::new();
+            for b in &pk.blobs {
+                match Change::from_bytes(b.clone()) {
+                    Ok(c) => chs.push(c),
+                    Err(e) => return Err(format!("from_bytes: {e}")),
+                }
+            }
+            if pk.batch {
+                doc.apply_changes(chs).map_err(|e| format!("{e}"))
+            } else {
+                for c in chs {
+                    if let Err(e) = doc.apply_changes(vec![c]) {
+                        return Err(format!("{e}"));
+                    }
+                }
+                Ok(())
+            }
+        }
     }
 
     pub fn deliver(&mut self, t: usize, pk: Packet) -> Outcome {
@@ -1413,36 +1453,12 @@ impl World {
             // changes may arrive under isolation; they must not affect isolated reads
             self.stats.bump("probe.delivery_under_isolation");
         }
+        self.last_packet = Some(pk.clone());
+        if pk.tainted {
+            self.reps[t].tainted = true;
+        }
         let rep = &mut self.reps[t];
-        let result: Result<(), String> = if pk.stream {
-            rep.doc.load_incremental(&pk.blobs[0]).map(|_| ()).map_err(|e| format!("{e}"))
-        } else {
-            let mut chs = Vec::new();
-            let mut perr = None;
-            for b in &pk.blobs {
-                match Change::from_bytes(b.clone()) {
-                    Ok(c) => chs.push(c),
-                    Err(e) => {
-                        perr = Some(format!("from_bytes: {e}"));
-                        break;
-                    }
-                }
-            }
-            if let Some(e) = perr {
-                Err(e)
-            } else if pk.batch {
-                rep.doc.apply_changes(chs).map_err(|e| format!("{e}"))
-            } else {
-                let mut res = Ok(());
-                for c in chs {
-                    if let Err(e) = rep.doc.apply_changes(vec![c]) {
-                        res = Err(format!("{e}"));
-                        break;
-                    }
-                }
-                res
-            }
-        };
+        let result = World::apply_packet(&mut rep.doc, &pk);
         if result.is_ok() {
             rep.delivered.extend(pk.hashes.iter().cloned());
         }
@@ -1638,6 +1654,9 @@ impl World {
         };
         let fresh = self.harvest(t);
         self.reps[t].delivered.extend(fresh);
+        if self.reps[f].tainted {
+            self.reps[t].tainted = true;
+        }
         Outcome::SyncRecv { from: f, to: t, result: res }
     }
 
